@@ -142,7 +142,23 @@ def _deepcopy(ex, args, kwargs):
     return copy.deepcopy(v)
 
 
+def _shallow_copy(ex, args, kwargs):
+    v = args[0]
+    if isinstance(v, HObj):
+        ex.assumptions_used.add("T-OD: copy.copy of a mapping object is a new mapping with the same items whose instance attributes are shared by reference")
+        o = HObj(v.cls, dict(v.fields), v.label + "~")
+        if ex.writes is not None:
+            o._born = ex.writes
+        return o
+    if isinstance(v, list):
+        return list(v)
+    if v is None or is_sym(v) or isinstance(v, (str, int, float, tuple, frozenset)):
+        return v
+    return copy.copy(v)
+
+
 M.REAL_CALL[copy.deepcopy] = _deepcopy
+M.REAL_CALL[copy.copy] = _shallow_copy
 
 
 def blank_contract(cls):
